@@ -452,8 +452,27 @@ def main():
     obligations = len(thms) + n_examples
     discharged = obligations if ok_props else 0
     proof_problems = []
+    # an extractor failure concerns this property only if the property (its theorems, its driver,
+    # its companions' drivers) depends on a Gen module the failing generator writes
     if ext_errs:
-        proof_problems.append("extractor: " + "; ".join(ext_errs))
+        roots = ["Strophe.Props." + pid, "Strophe.Drv." + prop.ENGINE[0].upper() + prop.ENGINE[1:]]
+        for (mname, _n) in getattr(prop, "ALSO", []):
+            e2 = importlib.import_module("props." + mname).ENGINE
+            roots.append("Strophe.Drv." + e2[0].upper() + e2[1:])
+        mine = {os.path.splitext(os.path.basename(f))[0] for f in lean_files(roots)
+                if os.sep + "Gen" + os.sep in f}
+        relevant = []
+        for e in ext_errs:
+            m = re.match(r"\S+ \[([^\]]*)\](?: \{only ([^}]*)\})?", e)
+            mods = [x[4:] for x in m.group(1).split(",") if x] if m else []
+            only = m.group(2).split(",") if m and m.group(2) else None
+            if only is not None:
+                if pid in only:
+                    relevant.append(e)
+            elif not mods or mine & set(mods):
+                relevant.append(e)
+        if relevant:
+            proof_problems.append("extractor: " + "; ".join(relevant))
     broken = []
     if not ok_props:
         broken = failing_theorems(pid, log_props)
